@@ -5,6 +5,7 @@
 package vm
 
 //@ func vm.makeRange returns r
+//@   assigns nothing
 //@   property C06 C18
 //@   ensures[len-empty] max-min+1 <= 0 ==> len(r) == 0
 //@   ensures[len] max-min+1 > 0 ==> len(r) == max-min+1
